@@ -30,11 +30,12 @@ def main():
             viol = [l for l in r.stdout.splitlines() if l.startswith('VIOLATED')]
             status = 'CAUGHT' if r.returncode == 1 else ('INCOMPLETE(exit 2)' if r.returncode == 2 else 'MISSED')
             if m.get('expect') == 'missed' and status == 'MISSED': status = 'MISSED (expected: undecided clause)'
+            if m.get('expect') == 'equivalent': status = 'QUIET (expected: behaviour-preserving edit)' if r.returncode == 0 else 'FALSE ALARM on a behaviour-preserving edit (exit %d)' % r.returncode
             res.append((m['id'], status + (': ' + viol[0][:200] if viol else '')))
             print('%-40s %s' % (m['id'], res[-1][1]), flush=True)
     finally:
         shutil.rmtree(scratch, ignore_errors=True)
-    bad = [r for r in res if r[1].startswith('MISSED') and 'expected' not in r[1] or r[1].startswith('STALE')]
+    bad = [r for r in res if r[1].startswith('MISSED') and 'expected' not in r[1] or r[1].startswith('STALE') or r[1].startswith('FALSE ALARM') or r[1].startswith('INCOMPLETE')]
     print('%d mutants, %d caught, %d not caught' % (len(res), sum(1 for r in res if r[1].startswith('CAUGHT')), len(bad)))
     return 1 if bad else 0
 sys.exit(main())
